@@ -309,6 +309,7 @@ class State:
         self.note = None
         self.steps = 0
         self.loops_entered = frozenset()
+        self.constructed = []   # (adt path, trace length at that point, span, value) for every value of a crate type with a destructor
 
     def clone(self):
         c = State.__new__(State)
@@ -321,6 +322,7 @@ class State:
         c.note = self.note
         c.steps = self.steps
         c.loops_entered = self.loops_entered
+        c.constructed = list(self.constructed)
         return c
 
     def stack(self):
@@ -421,6 +423,8 @@ class Machine:
         self.entered = set()
         self.havoc_loops = havoc_loops
         self.loop_info = None
+        self.drop_adts = {f["impl_of"]["self_ty"].get("path") for f in facts.fns.values()
+                          if f.get("impl_of") and f["impl_of"].get("trait") == "std::ops::Drop"}
 
     # ---------------------------------------------------------------- symbolic values by type
     def sym_value(self, e, ty, depth=0):
@@ -556,7 +560,7 @@ class Machine:
             if sub is not None and all(len(r) == 1 for r in results):
                 ends = [r[0] for r in results]
                 if all(s.status == "running" and len(s.frames) == depth and s.frames[-1].block == ipd and
-                       len(s.trace) == len(st.trace) for s in ends):
+                       len(s.trace) == len(st.trace) and len(s.constructed) == len(st.constructed) for s in ends):
                     merged = self.merge(st, cond, arms, ends)
                     if merged is not None:
                         st = merged
@@ -1359,7 +1363,10 @@ class Machine:
             if kd["k"] == "tuple":
                 return Tup(ops) if ops else UNIT
             if kd["k"] == "adt":
-                return Adt(kd["path"], kd["variant"], kd["variant_name"], ops, kd["fields"])
+                val = Adt(kd["path"], kd["variant"], kd["variant_name"], ops, kd["fields"])
+                if kd["path"] in self.drop_adts:
+                    st.constructed.append((kd["path"], len(st.trace), span, val))
+                return val
             if kd["k"] == "closure":
                 return ClosureV(kd["path"], ops)
             if kd["k"] == "rawptr":
